@@ -138,3 +138,121 @@ package frugal
 //@ func thrift.NewTMemoryBuffer
 //@   ensures result != nil && fresh(result) && result.Buffer != nil && fresh(result.Buffer) && buflen(result.Buffer) == 0
 //@   modifies alloc
+
+// ---- size limits (C12) --------------------------------------------------------------------------------
+
+//@ immutable lib.TMemoryOutputBuffer.limit, lib.TMemoryOutputBuffer.TMemoryBuffer
+//@ immutable lib.fBaseTransport.requestSizeLimit, lib.fHTTPTransport.fBaseTransport, lib.fHTTPTransport.responseSizeLimit
+
+//@ func lib.IsErrTooLarge
+//@   ensures result == (err != nil && implements(err, "thrift.TTransportException") && (ttype(err) == TRANSPORT_EXCEPTION_REQUEST_TOO_LARGE || ttype(err) == TRANSPORT_EXCEPTION_RESPONSE_TOO_LARGE))
+
+// The headers go to the transport in one Write; a size-limit error from it is returned unchanged.
+//@ func lib.FProtocol.writeHeader
+//@   ensures ncalls("io.Writer.Write") == 1
+//@   ensures tooLargeErr(callret("io.Writer.Write", 0, 1)) ==> result == callret("io.Writer.Write", 0, 1)
+//@   ensures callret("io.Writer.Write", 0, 1) != nil ==> result != nil
+//@   modifies *
+
+//@ func lib.fNatsTransport.checkMessageSize
+//@   ensures (result != nil) == (len(data) > natsMaxMessageSize)
+//@   ensures result != nil ==> ttype(result) == TRANSPORT_EXCEPTION_REQUEST_TOO_LARGE && implements(result, "thrift.TTransportException")
+
+//@ func lib.fNatsTransport.getClosedConditionError
+//@   ensures result != nil && ttype(result) == TRANSPORT_EXCEPTION_NOT_OPEN && implements(result, "thrift.TTransportException")
+
+//@ func lib.fHTTPTransport.getClosedConditionError
+//@   ensures result != nil && ttype(result) == TRANSPORT_EXCEPTION_NOT_OPEN && implements(result, "thrift.TTransportException")
+
+// Over the limit: nothing is handed to NATS and the call fails. A REQUEST_TOO_LARGE error is
+// produced only for a message that really is over the limit.
+//@ func lib.fNatsTransport.Oneway
+//@   ensures len(data) > natsMaxMessageSize ==> result != nil && ncalls("nats.go.Conn.PublishRequest") == 0
+//@   ensures len(data) > natsMaxMessageSize ==> ttype(result) == TRANSPORT_EXCEPTION_REQUEST_TOO_LARGE || ttype(result) == TRANSPORT_EXCEPTION_NOT_OPEN
+//@   ensures len(data) <= natsMaxMessageSize && ncalls("nats.go.Conn.PublishRequest") == 0 && result != nil ==> ttype(result) == TRANSPORT_EXCEPTION_NOT_OPEN
+//@   modifies *
+
+//@ func lib.fNatsTransport.Request
+//@   ensures len(data) > natsMaxMessageSize ==> err != nil && ncalls("nats.go.Conn.PublishRequest") == 0
+//@   ensures len(data) > natsMaxMessageSize && ncalls("lib.fNatsTransport.checkMessageSize") == 1 ==> ttype(err) == TRANSPORT_EXCEPTION_REQUEST_TOO_LARGE && implements(err, "thrift.TTransportException")
+//@   ensures len(data) <= natsMaxMessageSize && ncalls("lib.fNatsTransport.checkMessageSize") == 1 && ncalls("nats.go.Conn.PublishRequest") == 0 ==> err != nil && ncalls("lib.getOpID") == 1
+//@   modifies *
+
+//@ func lib.fHTTPTransport.Request
+//@   requires h.requestSizeLimit <= 9223372036854775807      // assumption: the configured limit fits an int
+//@   requires h.requestSizeLimit == 0 || h.requestSizeLimit >= 4    // assumption: a positive limit leaves room for the 4-byte frame prefix
+//@   ensures h.requestSizeLimit > 0 && len(data) > h.requestSizeLimit ==> err != nil && ncalls("lib.fHTTPTransport.makeRequest") == 0
+//@   ensures h.requestSizeLimit > 0 && len(data) > h.requestSizeLimit ==> ttype(err) == TRANSPORT_EXCEPTION_REQUEST_TOO_LARGE || ttype(err) == TRANSPORT_EXCEPTION_NOT_OPEN
+//@   ensures (h.requestSizeLimit == 0 || len(data) <= h.requestSizeLimit) && len(data) != 4 && ncalls("lib.fHTTPTransport.makeRequest") == 0 ==> err != nil && ttype(err) == TRANSPORT_EXCEPTION_NOT_OPEN
+//@   modifies *
+
+// HTTP status 413 from the server is reported as RESPONSE_TOO_LARGE.
+//@ func lib.fHTTPTransport.makeRequest
+//@   ensures ncalls("http.Client.Do") == 1 && callret("http.Client.Do", 0, 1) == nil && response.StatusCode == 413 ==> err != nil && ttype(err) == TRANSPORT_EXCEPTION_RESPONSE_TOO_LARGE && implements(err, "thrift.TTransportException")
+//@   modifies *
+
+// The request message is assembled in a buffer limited to the transport's request size limit.
+//@ func lib.FStandardClient.prepareMessage
+//@   ensures err == nil ==> client.limit == 0 || len(result) <= max(client.limit, 4)
+//@   ensures ncalls("lib.NewTMemoryOutputBuffer") == 1
+//@   ensures callarg("lib.NewTMemoryOutputBuffer", 0, 0) == client.limit
+//@   modifies *
+
+// An application exception 100 never reaches the caller as such: it is reported as the transport
+// error RESPONSE_TOO_LARGE.
+//@ func lib.FStandardClient.processReply
+//@   ensures ncalls("thrift.TApplicationException.Read") == 1 && callret("thrift.TApplicationException.Read", 0, 0) == nil && ncalls("thrift.TProtocol.ReadMessageEnd") == 1 && callret("thrift.TProtocol.ReadMessageEnd", 0, 0) == nil && atype(error0) == APPLICATION_EXCEPTION_RESPONSE_TOO_LARGE ==> result != nil && implements(result, "thrift.TTransportException") && ttype(result) == TRANSPORT_EXCEPTION_RESPONSE_TOO_LARGE
+//@   ensures ncalls("thrift.TApplicationException.Read") == 1 && callret("thrift.TApplicationException.Read", 0, 0) == nil && ncalls("thrift.TProtocol.ReadMessageEnd") == 1 && callret("thrift.TProtocol.ReadMessageEnd", 0, 0) == nil && atype(error0) != APPLICATION_EXCEPTION_RESPONSE_TOO_LARGE ==> result == error0
+//@   modifies *
+
+//@ func lib.FBaseProcessorFunction.trapError
+//@   ensures tooLargeErr(err) ==> result == nil && ncalls("lib.FBaseProcessorFunction.sendError") == 1
+//@   ensures tooLargeErr(err) ==> callarg("lib.FBaseProcessorFunction.sendError", 0, 4) == APPLICATION_EXCEPTION_RESPONSE_TOO_LARGE && callarg("lib.FBaseProcessorFunction.sendError", 0, 3) == oprot
+//@   ensures !tooLargeErr(err) ==> result == err && ncalls("lib.FBaseProcessorFunction.sendError") == 0
+//@   modifies *
+
+//@ pred tooLargeErr(e) = e != nil && implements(e, "thrift.TTransportException") && (ttype(e) == TRANSPORT_EXCEPTION_REQUEST_TOO_LARGE || ttype(e) == TRANSPORT_EXCEPTION_RESPONSE_TOO_LARGE)
+
+//@ immutable lib.fStompPublisherTransport.maxPublishSize
+
+//@ func lib.fNatsPublisherTransport.Publish
+//@   ensures len(data) > natsMaxMessageSize ==> result != nil && ncalls("nats.go.Conn.Publish") == 0
+//@   ensures len(data) > natsMaxMessageSize ==> ttype(result) == TRANSPORT_EXCEPTION_REQUEST_TOO_LARGE || ncalls("lib.fNatsPublisherTransport.getClosedConditionError") == 1
+//@   ensures len(data) <= natsMaxMessageSize && ncalls("nats.go.Conn.Publish") == 0 ==> ncalls("lib.fNatsPublisherTransport.getClosedConditionError") == 1
+//@   modifies *
+
+//@ func lib.fStompPublisherTransport.Publish
+//@   ensures m.maxPublishSize > 0 && len(data) > m.maxPublishSize ==> result != nil && ncalls("stomp.Conn.Send") == 0
+//@   ensures m.maxPublishSize > 0 && len(data) > m.maxPublishSize ==> ttype(result) == TRANSPORT_EXCEPTION_REQUEST_TOO_LARGE || ttype(result) == TRANSPORT_EXCEPTION_NOT_OPEN
+//@   ensures (m.maxPublishSize <= 0 || len(data) <= m.maxPublishSize) && ncalls("stomp.Conn.Send") == 0 ==> result != nil && ttype(result) == TRANSPORT_EXCEPTION_NOT_OPEN
+//@   modifies *
+
+// Every failure while writing the reply goes through trapError, which turns an overflow into a
+// RESPONSE_TOO_LARGE exception message; nothing else is returned.
+//@ func lib.FBaseProcessorFunction.SendReply
+//@   ensures result != nil ==> ncalls("lib.FBaseProcessorFunction.trapError") == 1
+//@   ensures result != nil ==> result == callret("lib.FBaseProcessorFunction.trapError", 0, 0)
+//@   ensures ncalls("lib.FBaseProcessorFunction.trapError") <= 1
+//@   modifies *
+
+// The client buffers requests in a buffer limited to what the transport says it can carry.
+//@ func lib.NewFStandardClient
+//@   ensures result != nil && ncalls("lib.FTransport.GetRequestSizeLimit") == 1
+//@   ensures result.limit == callret("lib.FTransport.GetRequestSizeLimit", 0, 0)
+//@   modifies *
+
+//@ func lib.NewFScopeClient
+//@   ensures result != nil && ncalls("lib.FPublisherTransport.GetPublishSizeLimit") == 1
+//@   ensures result.limit == callret("lib.FPublisherTransport.GetPublishSizeLimit", 0, 0)
+//@   modifies *
+
+// The server buffers each reply in a fresh buffer limited to the NATS message size and publishes
+// exactly when there is something to send.
+//@ func lib.fNatsServer.processFrame
+//@   ensures ncalls("lib.NewTMemoryOutputBuffer") <= 1
+//@   ensures ncalls("lib.NewTMemoryOutputBuffer") == 1 ==> callarg("lib.NewTMemoryOutputBuffer", 0, 0) == natsMaxMessageSize
+//@   ensures ncalls("nats.go.Conn.Publish") == 1 ==> len(callarg("nats.go.Conn.Publish", 0, 2)) <= natsMaxMessageSize
+//@   modifies *
+
+//@ func lib.fNatsPublisherTransport.getClosedConditionError
+//@   ensures result != nil && ttype(result) == TRANSPORT_EXCEPTION_NOT_OPEN && implements(result, "thrift.TTransportException")
